@@ -5,6 +5,11 @@
 // loop ordinal and call-site ordinal, plus executable lemma harnesses.
 package zap
 
+import (
+	"encoding/binary"
+	"io"
+)
+
 //@ func getChunkSize returns (cs, err)
 //@ pure
 //@ ensures err == nil ==> cs >= 1 [C01,C03,C06]
@@ -152,4 +157,132 @@ func lemmaFreqHasLocsRoundTrip(freq uint64, hasLocs bool) {
 //@ ensures s.refs == old(s.refs) - 1 || old(s.refs) == -9223372036854775808
 //@ ensures old(s.refs) != 1 ==> $liveFiles == old($liveFiles) && $liveMaps == old($liveMaps)
 //@ ensures old(s.refs) == 1 && old(s.mm) != nil && s.f != nil ==> $liveFiles == old($liveFiles) - 1 && $liveMaps == old($liveMaps) - 1
+//@ end
+
+// ---- C17 / C18: writers, persist, merge driver ----
+
+//@ func (*CountHashWriter).Write returns (n, err)
+//@ requires c.w != nil
+//@ requires typeis(c.w, ptr_CountHashWriter) ==> ptr_CountHashWriter(payload(c.w)) != c && ptr_CountHashWriter(payload(c.w)).w != nil && !typeis(ptr_CountHashWriter(payload(c.w)).w, ptr_CountHashWriter) && !typeis(ptr_CountHashWriter(payload(c.w)).w, ptr_bufWriter)
+//@ requires typeis(c.w, ptr_bufWriter) ==> ptr_bufWriter(payload(c.w)).w != nil
+//@ ensures 0 <= n && n <= len(b) [C04,C17]
+//@ ensures err == nil ==> n == len(b) [C17]
+//@ ensures old(c.n) <= 0x3fffffffffffffff ==> c.n == old(c.n) + n [C04,C05,C17]
+//@ ensures !typeis(c.w, ptr_bufWriter) && !typeis(c.w, ptr_CountHashWriter) ==> wrBytes(c.w) == old(wrBytes(c.w)) + n [C05,C17]
+//@ ensures typeis(c.w, ptr_bufWriter) ==> wrBytes(ptr_bufWriter(payload(c.w)).w) == old(wrBytes(ptr_bufWriter(payload(c.w)).w)) + n [C04,C17]
+//@ ensures c.crc == crcUpd(old(c.crc), row(b), off(b), n) [C04]
+//@ ensures !typeis(c.w, ptr_bufWriter) && !typeis(c.w, ptr_CountHashWriter) && old(bwErr(c.w)) ==> err != nil [C17]
+//@ ensures typeis(c.w, ptr_bufWriter) && old(bwErr(ptr_bufWriter(payload(c.w)).w)) ==> err != nil [C17]
+//@ ensures typeis(c.w, ptr_bufWriter) ==> bwErr(ptr_bufWriter(payload(c.w)).w) == (old(bwErr(ptr_bufWriter(payload(c.w)).w)) || err != nil) [C17]
+//@ ensures !typeis(c.w, ptr_bufWriter) && !typeis(c.w, ptr_CountHashWriter) ==> bwErr(c.w) == (old(bwErr(c.w)) || (err != nil && typeis(c.w, "*bufio.Writer"))) [C17]
+//@ ensures typeis(c.w, ptr_bufWriter) && old(ptr_bufWriter(payload(c.w)).n) <= 0x3fffffffffffffff ==> ptr_bufWriter(payload(c.w)).n == old(ptr_bufWriter(payload(c.w)).n) + n [C04,C17]
+//@ ensures typeis(c.w, ptr_CountHashWriter) && old(ptr_CountHashWriter(payload(c.w)).n) <= 0x3fffffffffffffff ==> ptr_CountHashWriter(payload(c.w)).n == old(ptr_CountHashWriter(payload(c.w)).n) + n [C04,C05,C17]
+//@ ensures typeis(c.w, ptr_bufWriter) ==> ptr_bufWriter(payload(c.w)).w == old(ptr_bufWriter(payload(c.w)).w)
+//@ ensures typeis(c.w, ptr_CountHashWriter) ==> ptr_CountHashWriter(payload(c.w)).w == old(ptr_CountHashWriter(payload(c.w)).w)
+//@ modifies CountHashWriter.n[c], CountHashWriter.crc[c]
+//@ modifies CountHashWriter.n[payload(c.w)] if typeis(c.w, ptr_CountHashWriter), CountHashWriter.crc[payload(c.w)] if typeis(c.w, ptr_CountHashWriter), bufWriter.n[payload(c.w)] if typeis(c.w, ptr_bufWriter)
+//@ modifies ghost wrBytes[payload(c.w)] if !typeis(c.w, ptr_CountHashWriter) && !typeis(c.w, ptr_bufWriter), ghost bwErr[payload(c.w)] if !typeis(c.w, ptr_CountHashWriter) && !typeis(c.w, ptr_bufWriter), ghost bwDirty[payload(c.w)] if !typeis(c.w, ptr_CountHashWriter) && !typeis(c.w, ptr_bufWriter)
+//@ modifies ghost wrBytes[ptr_bufWriter(payload(c.w)).w] if typeis(c.w, ptr_bufWriter), ghost bwErr[ptr_bufWriter(payload(c.w)).w] if typeis(c.w, ptr_bufWriter), ghost bwDirty[ptr_bufWriter(payload(c.w)).w] if typeis(c.w, ptr_bufWriter)
+//@ modifies ghost wrBytes[payload(ptr_CountHashWriter(payload(c.w)).w)] if typeis(c.w, ptr_CountHashWriter), ghost bwErr[payload(ptr_CountHashWriter(payload(c.w)).w)] if typeis(c.w, ptr_CountHashWriter), ghost bwDirty[payload(ptr_CountHashWriter(payload(c.w)).w)] if typeis(c.w, ptr_CountHashWriter)
+//@ end
+
+//@ func (*CountHashWriter).Count returns (n)
+//@ ensures n == c.n [C04,C05]
+//@ modifies nothing
+//@ end
+
+//@ func (*CountHashWriter).Sum32 returns (s)
+//@ ensures s == c.crc [C04]
+//@ modifies nothing
+//@ end
+
+//@ func (*bufWriter).Write returns (n, err)
+//@ requires br.w != nil
+//@ ensures 0 <= n && n <= len(in) [C17]
+//@ ensures err == nil ==> n == len(in) [C17]
+//@ ensures old(br.n) <= 0x3fffffffffffffff ==> br.n == old(br.n) + n [C04,C17]
+//@ ensures wrBytes(br.w) == old(wrBytes(br.w)) + n [C17]
+//@ ensures old(bwErr(br.w)) ==> err != nil [C17]
+//@ ensures bwErr(br.w) == (old(bwErr(br.w)) || err != nil) [C17]
+//@ modifies bufWriter.n[br], ghost wrBytes[br.w], ghost bwErr[br.w], ghost bwDirty[br.w]
+//@ end
+
+// verifBytesOf is the byte image encoding/binary.Write produces in big-endian order for the
+// fixed-size unsigned integers zapx passes to it (the reflection-based original is not analysed).
+func verifBytesOf(data any) []byte {
+	switch v := data.(type) {
+	case uint16:
+		return []byte{byte(v >> 8), byte(v)}
+	case uint32:
+		return []byte{byte(v >> 24), byte(v >> 16), byte(v >> 8), byte(v)}
+	case uint64:
+		return []byte{byte(v >> 56), byte(v >> 48), byte(v >> 40), byte(v >> 32), byte(v >> 24), byte(v >> 16), byte(v >> 8), byte(v)}
+	}
+	panic("verifBytesOf: unsupported type")
+}
+
+// verifModelBinaryWrite is the model zvc substitutes for encoding/binary.Write(w, BigEndian, data):
+// one Write of the value's big-endian image, returning that Write's error.
+func verifModelBinaryWrite(w io.Writer, order binary.ByteOrder, data any) error {
+	bs := verifBytesOf(data)
+	_, err := w.Write(bs)
+	return err
+}
+
+//@ func verifBytesOf returns (bs)
+//@ trusted
+//@ modifies alloc, new elems(uint8)
+//@ ensures bs != nil && fresh(bs) && off(bs) == 0
+//@ ensures typeis(data, uint64) ==> len(bs) == 8 && be64(row(bs), 0) == uint64(payload(data))
+//@ ensures typeis(data, uint32) ==> len(bs) == 4 && be32(row(bs), 0) == uint32(payload(data))
+//@ ensures typeis(data, uint16) ==> len(bs) == 2 && be16(row(bs), 0) == uint16(payload(data))
+//@ end
+
+//@ func persistFooter returns (err)
+//@ thin
+//@ requires writerIn != nil
+//@ requires typeis(writerIn, ptr_CountHashWriter) ==> ptr_CountHashWriter(payload(writerIn)).w != nil && !typeis(ptr_CountHashWriter(payload(writerIn)).w, ptr_CountHashWriter) && !typeis(ptr_CountHashWriter(payload(writerIn)).w, ptr_bufWriter)
+//@ requires typeis(writerIn, ptr_bufWriter) ==> ptr_bufWriter(payload(writerIn)).w != nil
+//@ propagates err from (*CountHashWriter).Write [C17]
+//@ modifies alloc, new elems(uint8), new CountHashWriter.*
+//@ modifies CountHashWriter.n[payload(writerIn)] if typeis(writerIn, ptr_CountHashWriter), CountHashWriter.crc[payload(writerIn)] if typeis(writerIn, ptr_CountHashWriter), bufWriter.n[payload(writerIn)] if typeis(writerIn, ptr_bufWriter)
+//@ modifies ghost wrBytes[payload(writerIn)] if !typeis(writerIn, ptr_CountHashWriter) && !typeis(writerIn, ptr_bufWriter), ghost bwErr[payload(writerIn)] if !typeis(writerIn, ptr_CountHashWriter) && !typeis(writerIn, ptr_bufWriter), ghost bwDirty[payload(writerIn)] if !typeis(writerIn, ptr_CountHashWriter) && !typeis(writerIn, ptr_bufWriter)
+//@ modifies ghost wrBytes[ptr_bufWriter(payload(writerIn)).w] if typeis(writerIn, ptr_bufWriter), ghost bwErr[ptr_bufWriter(payload(writerIn)).w] if typeis(writerIn, ptr_bufWriter), ghost bwDirty[ptr_bufWriter(payload(writerIn)).w] if typeis(writerIn, ptr_bufWriter)
+//@ modifies ghost wrBytes[payload(ptr_CountHashWriter(payload(writerIn)).w)] if typeis(writerIn, ptr_CountHashWriter), ghost bwErr[payload(ptr_CountHashWriter(payload(writerIn)).w)] if typeis(writerIn, ptr_CountHashWriter), ghost bwDirty[payload(ptr_CountHashWriter(payload(writerIn)).w)] if typeis(writerIn, ptr_CountHashWriter)
+//@ ensures err == nil && typeis(writerIn, ptr_CountHashWriter) && old(ptr_CountHashWriter(payload(writerIn)).n) <= 0x3fffffffffffff00 ==> ptr_CountHashWriter(payload(writerIn)).n == old(ptr_CountHashWriter(payload(writerIn)).n) + 52 [C04,C05,C17]
+//@ ensures err == nil && typeis(writerIn, ptr_bufWriter) && old(ptr_bufWriter(payload(writerIn)).n) <= 0x3fffffffffffff00 ==> ptr_bufWriter(payload(writerIn)).n == old(ptr_bufWriter(payload(writerIn)).n) + 52 [C04,C17]
+//@ ensures typeis(writerIn, ptr_bufWriter) && (old(bwErr(ptr_bufWriter(payload(writerIn)).w)) || err != nil) ==> bwErr(ptr_bufWriter(payload(writerIn)).w) [C17]
+//@ end
+
+//@ func persistSegmentBaseToWriter returns (n, err)
+//@ thin
+//@ requires sb != nil && w != nil && len(sb.mem) <= 0x3fffffffffffff00
+//@ propagates err from (*bufWriter).Write, persistFooter, (*bufio.Writer).Flush [C17]
+//@ local ensures err == nil ==> !bwDirty(br.w) && !bwErr(br.w) && bwFlushedTo(br.w) == wrBytes(br.w) [C17]
+//@ ensures err == nil ==> n == len(sb.mem) + 52 [C04,C17]
+//@ ensures $liveFiles == old($liveFiles) && (forall r ref :: fileOpen(r) == old(fileOpen(r)) && fileSynced(r) == old(fileSynced(r)))
+//@ ensures forall p string :: fsExists(p) == old(fsExists(p))
+//@ end
+
+//@ func PersistSegmentBase returns (err)
+//@ thin
+//@ requires sb != nil && !fsExists(path)
+//@ propagates err from os.OpenFile, persistSegmentBaseToWriter, (*os.File).Sync, (*os.File).Close [C17]
+//@ ensures err != nil ==> !fsExists(path) [C17]
+//@ ensures $liveFiles == old($liveFiles) [C17]
+//@ local ensures err == nil ==> fsExists(path) && fileSynced(f) && !fileOpen(f) [C17]
+//@ end
+
+//@ func (*SegmentBase).WriteTo returns (n, err)
+//@ thin
+//@ requires sb != nil
+//@ ensures w == nil ==> err != nil [C17]
+//@ propagates err from persistSegmentBaseToWriter [C17]
+//@ end
+
+//@ func (*SegmentBase).Persist returns (err)
+//@ thin
+//@ requires sb != nil && !fsExists(path)
+//@ ensures err != nil ==> !fsExists(path) [C04,C17]
+//@ propagates err from PersistSegmentBase [C17]
 //@ end
